@@ -41,6 +41,49 @@ func main() {
 	in := bufio.NewReaderSize(os.Stdin, 1<<20)
 	out := bufio.NewWriter(os.Stdout)
 	defer out.Flush()
+	if len(os.Args) > 1 && os.Args[1] == "pair" {
+		// two Streamers at a time in one process (race pass only: whatever the
+		// library keeps outside the Streamer is touched by both)
+		e1n.NoResidueCheck = true
+		var jobs []job
+		for {
+			line, err := in.ReadBytes('\n')
+			if len(line) > 1 {
+				var j job
+				if e := json.Unmarshal(line, &j); e != nil {
+					fmt.Fprintln(os.Stderr, "bad job:", e)
+					os.Exit(2)
+				}
+				e1.Hist(j.Sc.Hist) // fill the harness's history cache before anything runs concurrently
+				jobs = append(jobs, j)
+			}
+			if err != nil {
+				break
+			}
+		}
+		for i := 0; i < len(jobs); i += 2 {
+			k := i + 1
+			if k >= len(jobs) {
+				k = 0
+			}
+			for n := 0; n < jobs[i].Runs; n++ {
+				done := make(chan struct{}, 2)
+				for _, x := range []int{i, k} {
+					sc := jobs[x].Sc
+					go func() { e1n.Run(&sc); done <- struct{}{} }()
+				}
+				<-done
+				<-done
+			}
+			for _, x := range []int{i, k} {
+				b, _ := json.Marshal(result{Name: jobs[x].Sc.Name, Keys: map[string]int{}})
+				out.Write(b)
+				out.WriteByte('\n')
+			}
+			out.Flush()
+		}
+		return
+	}
 	for {
 		line, err := in.ReadBytes('\n')
 		if len(line) > 1 {
